@@ -151,7 +151,12 @@ class C19(Check):
                 if out_keys and r0 < 0.5:
                     k = case_target if (case_target and rng.random() < 0.7) else rng.choice(out_keys)
                     name, text = F.pick_text_fault(rng)
-                    edits.append({"op": "write", "path": uni.file_of(k), "text": text, "kind": "replace:" + name})
+                    if rng.random() < 0.06:
+                        # a bystander that became a very large file (more than a megabyte of comment lines / garbage)
+                        edits.append({"op": "write", "path": uni.file_of(k), "text": rng.choice(["# filler line of a very large file ....................\n", "%%% garbage {{{ \x01\n"]),
+                                      "repeat": 30000, "kind": "replace:huge"})
+                    else:
+                        edits.append({"op": "write", "path": uni.file_of(k), "text": text, "kind": "replace:" + name})
                 elif r0 < 0.62 and pure_targets:
                     # a twin: another file encoding the same name and version as a target that nothing references
                     k = rng.choice(pure_targets)
@@ -216,6 +221,8 @@ class C19(Check):
         for k, d in uni.defs.items():
             if rng.random() < 0.3:
                 scn["fmt"][k] = G.gen_fmt(rng, d, rich=False)
+        if rng.random() < 0.4:
+            scn["preread"] = rng.randrange(1 << 20)  # another read (other targets, same directories) earlier in the same process
         return scn
 
     def execute(self, scn: dict) -> Outcome:
@@ -250,6 +257,20 @@ class C19(Check):
                     raise InvalidScenario("pre-edit outside the closure")
                 w.apply_edit(e)
                 closure_err = True
+            if scn.get("preread") is not None and not closure_err and not scn.get("extra_dirs"):
+                # history: the same process read OTHER targets from the same directories before (everything the directories hold):
+                # what that call reached has nothing to do with the reads below
+                op0 = scn["reads"][0]
+                if is_rn:
+                    others = [i for i in sorted(vis) if uni.roots[i]["dir"] != tdir]
+                    pre = {"op": "rn", "root": {"p": uni.roots[others[scn["preread"] % len(others)]]["dir"]} if others else op0["root"],
+                           "lookups": [{"p": uni.roots[i]["dir"]} for i in sorted(vis)], "key": None, "cwd": "", "allow_unreg": op0.get("allow_unreg", False)}
+                else:
+                    allk = [k0 for k0 in uni.defs if uni.root_of[k0] in vis]
+                    pre = {"op": "rf", "files": [{"p": uni.file_of(k0)} for k0 in allk], "roots": [{"p": uni.roots[i]["dir"]} for i in sorted({uni.root_of[k0] for k0 in allk})],
+                           "lookups": [a for a in (op0.get("lookups") or [])], "key": None, "cwd": "", "allow_unreg": op0.get("allow_unreg", False)}
+                w.run_read(pre)
+                out.stats["prereads_of_other_targets"] += 1
             kinds = set()
             listed = 0
             badname = False
